@@ -1,2 +1,3 @@
 //! Shared scaffolding for the sozu verification harness.
 pub mod util;
+pub mod worker;
